@@ -293,7 +293,15 @@ def _save_and_reraise(ctx):
                     interp.frames.pop()
 
             def capture(interp):
-                return dict(holder['obj'].fields)
+                # the captured exception is read through the attributes the
+                # class documents (value, tb), however they are stored
+                out = {}
+                for name in ('value', 'tb'):
+                    try:
+                        out[name] = interp.get_attr(holder['obj'], name)
+                    except AbsRaise:
+                        out[name] = T('sym', 'attribute-error')
+                return out
             outcomes, _i = extract(world, thunk, capture=capture, setup=_setup)
             o = _one(rep, 'R9.2', label, outcomes)
             if o is None:
@@ -473,26 +481,39 @@ def _filter(ctx):
             rep.check('R9.3', 'exception_filter[twice]:rejected', ok,
                       '%s -> %s; a rejected exception propagates as the '
                       'same object' % (label, o.brief()), case=label)
-    # __get__: binding is per instance
+    # __get__: binding is per instance.  Observed by *using* what __get__
+    # hands out: each result is asked (through __exit__) about an exception,
+    # and the predicate that answers says for which instance it was bound.
     holder = {}
 
     def thunk(interp):
         pred = Obj(None, {}, label='pred')
 
         def get(interp2, a, kw):
-            return T('bound', interp2.termify(a[0]))
+            inst = a[0]
+
+            def bound(interp3, b, kw3):
+                interp3.effect('bound-predicate', inst.label if isinstance(
+                    inst, Obj) else show(interp3.termify(inst)))
+                return K(True)
+            return AbsFunc('bound predicate', bound)
         pred.fields['__get__'] = AbsFunc('pred.__get__', get)
         pred.fields['__hasattr__'] = {}
         flt = interp.call(cls, [pred])
         o1 = Obj(None, {}, label='instance1')
         o2 = Obj(None, {}, label='instance2')
         owner = Obj(None, {}, label='owner')
-        holder.update(flt=flt, o1=o1, o2=o2)
         g = interp.get_attr(flt, '__get__')
-        r1 = interp.call(g, [o1, owner])
-        r2 = interp.call(g, [o2, owner])
-        r3 = interp.call(g, [o1, owner])
-        return TupleV([r1, r2, r3])
+        results = [interp.call(g, [o1, owner]), interp.call(g, [o2, owner]),
+                   interp.call(g, [o1, owner])]
+        interp.effects[:] = []
+        kinds = []
+        for r in results:
+            kinds.append(K(isinstance(r, Obj) and r.cls is cls))
+            exc = exc_obj('exc', 'KeyError')
+            interp.call(interp.get_attr(r, '__exit__'),
+                        [ExtRef('KeyError'), exc, T('sym', 'tb')])
+        return TupleV(kinds)
     outcomes, _i = extract(world, thunk, setup=_setup)
     notes = inexact_notes(outcomes)
     if notes:
@@ -500,26 +521,14 @@ def _filter(ctx):
                       notes)
     else:
         for o in outcomes:
-            ok = o.kind == 'return' and isinstance(o.value, TupleV)
-            detail = o.brief()
-            if ok:
-                want = ['instance1', 'instance2', 'instance1']
-                got = []
-                for r in o.value.items:
-                    b = r.fields.get('_should_ignore_ex') if (
-                        isinstance(r, Obj) and r.cls is cls) else None
-                    if isinstance(b, T) and b.op == 'bound' and \
-                            isinstance(b.args[0], T) and \
-                            b.args[0].op == 'obj':
-                        got.append(b.args[0].args[0])
-                    else:
-                        got.append(None)
-                ok = got == want
-                detail = 'bound predicates %s' % [show(g) for g in got]
+            got = [e[1] for e in o.effects if e[0] == 'bound-predicate']
+            ok = o.kind == 'return' and isinstance(o.value, TupleV) and \
+                all(k == K(True) for k in o.value.items) and \
+                got == ['instance1', 'instance2', 'instance1']
             rep.check('R9.3', 'exception_filter.__get__', ok,
                       'accessing the filter through two instances yields '
-                      'filters bound to each instance\'s own predicate; %s'
-                      % detail)
+                      'filters that ask the predicate bound to that '
+                      'instance; asked %s (%s)' % (got, o.brief()[:120]))
         rep.case({'case': '__get__ twice'}, ('fget',))
 
 
